@@ -306,6 +306,43 @@ def GCmd.expand : GCmd → List XCmd
   | .commit => [.commit]
   | .rollback => [.rollback]
 
+/-! ### `Graph.parse` and SPARQL Update (`Graph.update`, rdflib's own evaluator) inside a transaction -/
+
+/-- what the parser's sink and the update evaluator do to the graph, as the wrapper calls they make;
+    `deleteWhere` depends on the content at that moment (the evaluator first solves the pattern) -/
+inductive UOp
+  | parse (qs : List Quad)        -- the sink calls `graph.add` once per statement, in document order
+  | insertData (qs : List Quad)   -- `evalInsertData`: `g += triples` = `Store.addN`
+  | deleteData (qs : List Quad)   -- `evalDeleteData`: `g -= triples` = one fully bound `remove` each
+  | deleteWhere (p : Pat)         -- `evalDeleteWhere`: `evalBGP`, then per solution `cg -= [filled template]`:
+                                  -- one fully bound `remove` per matching triple of the graph
+  | clear (g : Nat)               -- `evalClear`: `graph.remove((None, None, None))`
+  deriving Repr
+
+def UOp.expandAt (cur : List Quad) : UOp → List XOp
+  | .parse qs => qs.map .add
+  | .insertData qs => qs.map .add
+  | .deleteData qs => qs.map (fun q => .remove q.pat)
+  | .deleteWhere p => (cur.filter (fun q => p.matches q)).map (fun q => .remove q.pat)
+  | .clear g => [.remove (none, none, none, some g)]
+
+def XW.ustep (s : XW) (u : UOp) : XW := (u.expandAt s.m.cur).foldl XW.step s
+
+inductive UCmd
+  | u (o : UOp)
+  | g (o : GOp)
+  | commit
+  | rollback
+  deriving Repr
+
+def XW.ucmd (s : XW) : UCmd → XW
+  | .u o => s.ustep o
+  | .g o => o.expand.foldl XW.step s
+  | .commit => s.commit
+  | .rollback => s.rollback
+
+def XW.urun (s : XW) (cs : List UCmd) : XW := cs.foldl XW.ucmd s
+
 /-! ### two wrappers side by side over one store -/
 
 structure X2 where
